@@ -2,6 +2,7 @@ package flowcontrol
 
 import (
 	"fmt"
+	"sync"
 	"time"
 
 	"golang.org/x/time/rate"
@@ -23,6 +24,11 @@ func newTokenBucketFlowControl(name string, typ proxyv1alpha1.FlowControlSchemaT
 }
 
 type globalTokenBucket struct {
+	// lock orders the clock readings handed to the limiter: a reading taken before
+	// another caller's but delivered after it would move the limiter's clock back
+	// and the span in between would be credited twice. It also guards limiter
+	// against Resize.
+	lock    sync.Mutex
 	limiter *rate.Limiter
 	name    string
 	typ     proxyv1alpha1.FlowControlSchemaType
@@ -35,6 +41,8 @@ func (f *globalTokenBucket) Type() proxyv1alpha1.FlowControlSchemaType {
 }
 
 func (f *globalTokenBucket) TryAcquireN(instance string, n int32) bool {
+	f.lock.Lock()
+	defer f.lock.Unlock()
 	return f.limiter.AllowN(time.Now(), int(n))
 }
 
@@ -43,6 +51,8 @@ func (f *globalTokenBucket) String() string {
 }
 
 func (f *globalTokenBucket) Resize(n int32, burst int32) bool {
+	f.lock.Lock()
+	defer f.lock.Unlock()
 	resized := false
 	if f.qps != n || f.burst != burst {
 		f.limiter = rate.NewLimiter(rate.Limit(n), int(burst))
